@@ -8,6 +8,7 @@ mod sched;
 mod rx_resolver;
 mod rx_font;
 mod rx_cache;
+mod rx_objstm;
 
 fn main() {
     let args: Vec<String> = std::env::args().collect();
@@ -25,6 +26,7 @@ fn main() {
         "store" => rx_store::run(&args[2], &args[3], &opts),
         "pagetree" => rx_pagetree::run(&args[2], &args[3], &opts),
         "resolver" => rx_resolver::run(&args[2], &args[3], &opts),
+        "objstm" => rx_objstm::run(&args[2], &args[3], &opts),
         "cache" => rx_cache::run(&args[2], &args[3], &opts),
         "widths" => rx_font::run_widths(&args[2], &args[3], &opts),
         "cmap" => rx_font::run_cmap(&args[2], &args[3], &opts),
